@@ -166,7 +166,7 @@ def drive(mod, tier):
             if not made:
                 # the violation needs the calls made by earlier runs of the same chunk (hidden process state)
                 lo = (run // chunk) * chunk
-                made = fresh_mkreplay(prop, dict(prefix=dict(seed=seed, lo=lo, run=run), fp=fp, text=text), path)
+                made = fresh_mkreplay(prop, dict(prefix=dict(seed=seed, lo=lo, run=run, tier=tier), fp=fp, text=text), path)
             if not made:
                 raise HarnessError("violation seen in the batch could not be reproduced in a fresh process")
             with open(path) as f:
